@@ -79,5 +79,10 @@ CLAIMED = {
         "Histories longer than two calls follow by induction from frame + havoc, not by enumeration; lazy initialisation inside re/pycountry is environment.",
         "3 C15",
     ),
+    "C12": (
+        "A: every bank list of up to 2 (thorough 3) entries over small pools (country, bank code incl. empty, BIC forms incl. empty/8/11/XXX, primary flag) is enumerated by engine forks, installed and indexed by the real registry code and queried through the real API; every answer is compared with reference look-up semantics. B: for each listed (country, code) key of the bundled registry (quick: a seeded quarter of the 250-code chunks, every country) an IBAN with that key and otherwise symbolic BBAN is built by the real code; bic/bank/names, candidates, the chosen BIC and the reverse look-ups are compared with the reference; a symbolic key constrained to be unlisted must yield None/InvalidBankCode.",
+        "Registry contents in A are concrete values chosen by forks, and B is a per-key sweep with the remaining characters symbolic: the solver decides path feasibility, the exhaustive part is the fork tree (stated plainly). The tie-break among generic candidates is not demanded.",
+        "3 C12",
+    ),
 }
 NOT_APPLICABLE = {}
